@@ -336,13 +336,18 @@ fn string_heavy_grammar() -> BoxedStrategy<GrammarSpec> {
         1 => Just(GrammarSpec::Lark("start: \"<\" TEXT \">\" %json {\"type\":\"string\",\"maxLength\":7}\nTEXT: /[a-z ]{0,20}/\n".into())),
         1 => Just(GrammarSpec::Lark("start: STR (\",\" STR)*\nSTR: /\"[^\"\\\\\\x00-\\x1F\\x7F]{0,12}\"/\n".into())),
         1 => Just(GrammarSpec::Regex("\"([^\"\\\\\\x00-\\x1F\\x7F]|\\\\[\"\\\\/bfnrt])*\"".into())),
+        // lazy and greedy lexemes alive in the same lexer state (a slice may be contained in the greedy one only)
+        1 => Just(GrammarSpec::Lark("start: TEXT \"\\\"\" | key \"=\"\nTEXT: /[^\"]+/\nkey[lazy]: /[a-z]+:/\n".into())),
+        1 => Just(GrammarSpec::Lark("start: (word | tag)+\nword: /[a-z ]+/ \".\"\ntag[lazy]: /[a-z]*>/\n".into())),
+        1 => Just(GrammarSpec::Lark("start: q rest\nq[suffix=\";\"]: /[a-z ]+/\nrest: /[a-z;]*/\n".into())),
+        1 => Just(GrammarSpec::Lark("start: hd /[0-9a-z]+/\nhd[lazy]: /[a-z0-9 ]*:/\n".into())),
     ]
     .boxed()
 }
 
 fn slice_rich_vocab() -> BoxedStrategy<VocabSpec> {
     let tok = prop_oneof![
-        6 => proptest::collection::vec(prop_oneof![Just(b'a'), Just(b'b'), Just(b'e'), Just(b't'), Just(b'l'), Just(b'p'), Just(b'h'), Just(b'z'), Just(b' '), Just(b'0'), Just(b'1'), Just(b'2'), Just(b'-'), Just(b'A')], 1..12),
+        6 => proptest::collection::vec(prop_oneof![Just(b'a'), Just(b'b'), Just(b'e'), Just(b't'), Just(b'l'), Just(b'p'), Just(b'h'), Just(b'z'), Just(b' '), Just(b'0'), Just(b'1'), Just(b'2'), Just(b'-'), Just(b'A'), Just(b':'), Just(b'>'), Just(b';'), Just(b'.'), Just(b'=')], 1..12),
         1 => proptest::collection::vec(prop_oneof![Just(b'a'), Just(b'x'), Just(b' ')], 12..40),
         2 => proptest::collection::vec(prop_oneof![Just(b'"'), Just(b','), Just(b':'), Just(b'{'), Just(b'}'), Just(b'a'), Just(b' '), Just(b'\\'), Just(b'n'), Just(b'['), Just(b']')], 2..5),
         1 => Just("é".as_bytes().to_vec()),
